@@ -29,6 +29,165 @@ type nextLookup struct {
 	value ssa.Value // extract #0
 }
 
+// methodTagFn: when the method → tag translation is a function (`func methodTag(method string) (tag string, ok bool)`
+// with a switch over the method names) instead of a map literal, that function; its table is read from its returns.
+var methodTagFn *ssa.Function
+
+// tagCallArg: v is the tag result of a call of the tag function: returns the method argument.
+func tagCallArg(v ssa.Value) (ssa.Value, bool) {
+	if methodTagFn == nil {
+		return nil, false
+	}
+	v = sx.Unspill(v)
+	if e, ok := v.(*ssa.Extract); ok && e.Index == 0 {
+		v = e.Tuple
+	}
+	c, ok := v.(*ssa.Call)
+	if !ok || !sameFn(sx.StaticCallee(c), methodTagFn) || len(c.Call.Args) == 0 {
+		return nil, false
+	}
+	return c.Call.Args[len(c.Call.Args)-1], true
+}
+
+// findMethodTagFn: a function of package httpd with one string parameter whose first result is a string and whose
+// returns carry at least five distinct constant strings starting with '/', each behind `param == <method constant>`.
+func findMethodTagFn(p *core.Prog) (*ssa.Function, map[string]string) {
+	for _, fn := range p.PkgFuncs("httpd") {
+		if fn.Parent() != nil || fn.Blocks == nil || len(fn.Params) != 1 || !isStringT(fn.Params[0].Type()) {
+			continue
+		}
+		res := fn.Signature.Results()
+		if res.Len() == 0 || !isStringT(res.At(0).Type()) {
+			continue
+		}
+		table := map[string]string{}
+		sx.Instrs(fn, func(in ssa.Instruction) {
+			b, ok := in.(*ssa.BinOp)
+			if !ok || b.Op != token.EQL || b.X != ssa.Value(fn.Params[0]) || b.Referrers() == nil {
+				return
+			}
+			m, isC := sx.ConstString(b.Y)
+			if !isC {
+				return
+			}
+			for _, u := range *b.Referrers() {
+				if iff, ok := u.(*ssa.If); ok {
+					if _, rv, ok := edgeReturn(sx.Edge{From: iff.Block(), Idx: 0}, 0); ok {
+						if v, isV := sx.ConstString(rv); isV {
+							table[m] = v
+						}
+					}
+				}
+			}
+		})
+		n := 0
+		for _, v := range table {
+			if strings.HasPrefix(v, "/") {
+				n++
+			}
+		}
+		if n >= 5 {
+			return fn, table
+		}
+	}
+	return nil, nil
+}
+
+var methodTagFnTable map[string]string
+
+// regKey: one child name the registration uses for a trie transition: a constant given directly to a node method
+// (`node.nextNodeOrNew(routeParam)`) or appended to the list of child names that a later loop hands to that method
+// (`names = append(names, routeParam)` … `for _, n := range names { node = node.nextNodeOrNew(n) }`).
+type regKey struct {
+	At  ssa.Instruction
+	Key string
+}
+
+// appendElems: the explicit elements of `append(l, a, b)` (go/ssa stores them into a fresh array and passes its slice).
+func appendElems(c *ssa.Call) []ssa.Value {
+	if !isBuiltin(c, "append") || len(c.Call.Args) != 2 {
+		return nil
+	}
+	sl, ok := c.Call.Args[1].(*ssa.Slice)
+	if !ok {
+		return nil
+	}
+	al, ok := sl.X.(*ssa.Alloc)
+	if !ok || al.Referrers() == nil {
+		return nil
+	}
+	var out []ssa.Value
+	for _, u := range *al.Referrers() {
+		if ia, ok := u.(*ssa.IndexAddr); ok && ia.Referrers() != nil {
+			for _, uu := range *ia.Referrers() {
+				if st, ok := uu.(*ssa.Store); ok && st.Addr == ssa.Value(ia) {
+					out = append(out, st.Val)
+				}
+			}
+		}
+	}
+	return out
+}
+
+// regKeys: the constant child names of the registration, and the set of SSA values that make up the child-name list
+// (empty when the registration inserts as it goes).
+func regKeys(p *core.Prog, parse *ssa.Function) ([]regKey, map[ssa.Value]bool) {
+	var out []regKey
+	list := map[ssa.Value]bool{}
+	var grow func(v ssa.Value)
+	grow = func(v ssa.Value) {
+		if v == nil || list[v] {
+			return
+		}
+		switch x := v.(type) {
+		case *ssa.Phi:
+			list[v] = true
+			for _, e := range x.Edges {
+				grow(e)
+			}
+		case *ssa.Call:
+			if isBuiltin(x, "append") {
+				list[v] = true
+				grow(x.Call.Args[0])
+			}
+		}
+	}
+	sx.Instrs(parse, func(in ssa.Instruction) {
+		c, ok := in.(*ssa.Call)
+		if !ok {
+			return
+		}
+		callee := sx.StaticCallee(c)
+		if callee == nil || !p.InModule(callee) || callee.Signature.Recv() == nil {
+			return
+		}
+		for _, a := range c.Call.Args {
+			if k, isC := sx.ConstString(a); isC {
+				out = append(out, regKey{in, k})
+				continue
+			}
+			// element of a []string list
+			if ld, ok := a.(*ssa.UnOp); ok && ld.Op == token.MUL {
+				if ia, ok := ld.X.(*ssa.IndexAddr); ok && ia.X.Type().String() == "[]string" {
+					grow(ia.X)
+				}
+			}
+		}
+	})
+	sx.Instrs(parse, func(in ssa.Instruction) {
+		c, ok := in.(*ssa.Call)
+		if !ok || !list[c] {
+			return
+		}
+		for _, e := range appendElems(c) {
+			if k, isC := sx.ConstString(e); isC {
+				out = append(out, regKey{in, k})
+			}
+		}
+	})
+	return out, list
+}
+
 func lookupsOn(fn *ssa.Function, field string, methodTags *ssa.Global) []*nextLookup {
 	var out []*nextLookup
 	sx.Instrs(fn, func(in ssa.Instruction) {
@@ -44,6 +203,12 @@ func lookupsOn(fn *ssa.Function, field string, methodTags *ssa.Global) []*nextLo
 				nl.kind = "methodtag:const:" + s
 			} else {
 				nl.kind = "methodtag:" + sx.ValPath(inner.Index)
+			}
+		} else if arg, isT := tagCallArg(lk.Index); isT {
+			if s, isC := sx.ConstString(arg); isC {
+				nl.kind = "methodtag:const:" + s
+			} else {
+				nl.kind = "methodtag:" + sx.ValPath(arg)
 			}
 		} else {
 			nl.kind = "segment"
@@ -77,6 +242,9 @@ func lookupsOn(fn *ssa.Function, field string, methodTags *ssa.Global) []*nextLo
 func methodTagTable(p *core.Prog, methodTags *ssa.Global) map[string]string {
 	out := map[string]string{}
 	pk := p.Pkgs["httpd"]
+	if methodTags == nil && methodTagFnTable != nil {
+		return methodTagFnTable
+	}
 	if pk == nil || methodTags == nil {
 		return out
 	}
@@ -114,6 +282,7 @@ func runC04(p *core.Prog, r *core.Report) {
 	r.Rule("C04-R2", "exactly one dispatch: every path of ServeHTTP calls the relay handler exactly once; the default relay calls the selected route's handler exactly once", 2)
 	r.Rule("C04-R3", "precedence by control flow: within one step of the walk the :param lookup is reachable only from the miss edge of the literal lookup, the * lookup only from the miss edge of the :param lookup, `return nil` only after all three missed, the * arm ends the walk; the '*' method is consulted only when the exact method missed; a route is returned only after a successful method lookup", 5)
 	r.Rule("C04-R4", "namespace separation and reader/writer agreement: every method tag and both parameter keys start with '/' (a path segment never does) and are pairwise distinct; the constant keys the registration inserts are exactly those the lookup consults", 3)
+	r.Rule("C04-R6", "a rejected registration leaves the routing tree unchanged: no path of the registration function leads from a change of the tree (a child created, a node field written) to a return with an error — dispatch depends on the successfully registered routes alone", 1)
 	r.Rule("C04-R5", "capture pairing: registration appends one parameter name per :param/* transition, the lookup appends one value per such transition, and every successful return assigns the matched node's name list (so names and values have equal length in handlers)", 4)
 	r.NotDecided = append(r.NotDecided, "that the selected route equals a reference matcher's choice for every table × path (a value property of the walk; the empty-segment and no-leading-slash conventions are not re-derived)")
 	r.Trusted = append(r.Trusted, "reading a nil map does not panic", "net/http passes ServeHTTP a non-nil *Request with non-nil URL", "go/ssa", "no int overflow on indices")
@@ -282,8 +451,12 @@ func runC04(p *core.Prog, r *core.Report) {
 		}
 	}
 
+	methodTagFn, methodTagFnTable = nil, nil
+	if methodTags == nil {
+		methodTagFn, methodTagFnTable = findMethodTagFn(p)
+	}
 	for f := range reachableFrom(p, find) {
-		if isTail[f] || f.Parent() != nil {
+		if isTail[f] || f.Parent() != nil || sameFn(f, methodTagFn) {
 			continue
 		}
 		for _, l := range lookupsOn(f, nextKey, methodTags) {
@@ -303,7 +476,7 @@ func runC04(p *core.Prog, r *core.Report) {
 	serve = p.Inl(serveSrc, sx.OrigFunc(find), methodFn)
 	methodSrc := methodFn
 	if methodFn != nil {
-		methodFn = p.Inl(methodFn)
+		methodFn = p.Inl(methodFn, methodTagFn)
 	}
 	sameMethod := func(c *ssa.Function) bool { return methodSrc != nil && c != nil && sx.OrigFunc(c) == methodSrc }
 
@@ -627,6 +800,7 @@ func runC04(p *core.Prog, r *core.Report) {
 						continue
 					}
 					if methodTags != nil && nm.Name == methodTags.Name() {
+						_ = 0
 						if cl, ok := vs.Values[i].(*ast.CompositeLit); ok {
 							for _, e := range cl.Elts {
 								kv := e.(*ast.KeyValueExpr)
@@ -640,6 +814,11 @@ func runC04(p *core.Prog, r *core.Report) {
 				}
 				return true
 			})
+		}
+		if methodTags == nil {
+			for k, v := range methodTagFnTable {
+				vals["method "+k] = v
+			}
 		}
 		// parameter keys: the constants the lookup consults
 		lkConsts := map[string]bool{}
@@ -671,17 +850,10 @@ func runC04(p *core.Prog, r *core.Report) {
 		r.Check(len(bad) == 0 && len(vals) >= 5, "C04-R4", "reserved trie keys are outside the segment namespace and distinct", "-", fmt.Sprintf("%d reserved keys, all start with '/' and are pairwise distinct", len(vals)), strings.Join(bad, "; "))
 		// writer constants == reader constants
 		wrConsts := map[string]bool{}
-		sx.Instrs(parse, func(in ssa.Instruction) {
-			if c, ok := in.(*ssa.Call); ok {
-				if callee := sx.StaticCallee(c); callee != nil && p.InModule(callee) && callee.Signature.Recv() != nil {
-					for _, a := range c.Call.Args {
-						if s, isC := sx.ConstString(a); isC {
-							wrConsts[s] = true
-						}
-					}
-				}
-			}
-		})
+		rkeys, _ := regKeys(p, parse)
+		for _, k := range rkeys {
+			wrConsts[k.Key] = true
+		}
 		r.Check(keys(wrConsts) == keys(lkConsts) && len(lkConsts) == 2, "C04-R4", "registration and lookup use the same parameter keys", p.FuncPos(parse), "both use {"+keys(lkConsts)+"}", "registration inserts {"+keys(wrConsts)+"} but the lookup consults {"+keys(lkConsts)+"}")
 		// the catch-all arm of the registration is taken for the fragment "*" and for nothing else: one of the two reserved
 		// children is created behind a comparison of the whole fragment with "*" (a test of the first byte only would turn
@@ -709,27 +881,24 @@ func runC04(p *core.Prog, r *core.Report) {
 				}
 			})
 			nStar := 0
-			sx.Instrs(parse, func(in ssa.Instruction) {
-				c, ok := in.(*ssa.Call)
-				if !ok {
-					return
+			for _, k := range rkeys {
+				if len(starEdges) > 0 && sx.MustPass(parse, nil, k.At, sx.Cut{Edges: starEdges}) {
+					nStar++
 				}
-				callee := sx.StaticCallee(c)
-				if callee == nil || !p.InModule(callee) || callee.Signature.Recv() == nil {
-					return
-				}
-				for _, a := range c.Call.Args {
-					if k, isC := sx.ConstString(a); isC && wrConsts[k] && len(starEdges) > 0 && sx.MustPass(parse, nil, in, sx.Cut{Edges: starEdges}) {
-						nStar++
-					}
-				}
-			})
+			}
 			r.Check(nStar > 0, "C04-R4", "registration: the catch-all child is created only for the fragment \"*\"", p.FuncPos(parse), "behind a comparison of the whole fragment with \"*\"", "no reserved child is created behind `fragment == \"*\"`: the registration decides the catch-all arm by something weaker (the first byte?), so literal fragments that merely begin with '*' are registered as catch-alls and swallow every longer path")
 		}
 		// method tags: registration and lookup both go through the same table
 		usesW, usesR := false, false
+		callsTagFn := func(in ssa.Instruction) bool {
+			c, ok := in.(*ssa.Call)
+			return ok && methodTagFn != nil && sameFn(sx.StaticCallee(c), methodTagFn)
+		}
 		sx.Instrs(parse, func(in ssa.Instruction) {
 			if lk, ok := in.(*ssa.Lookup); ok && methodTags != nil && sx.Origins(lk.X)["global:"+methodTags.Name()] {
+				usesW = true
+			}
+			if callsTagFn(in) {
 				usesW = true
 			}
 		})
@@ -738,15 +907,98 @@ func runC04(p *core.Prog, r *core.Report) {
 				if lk, ok := in.(*ssa.Lookup); ok && methodTags != nil && sx.Origins(lk.X)["global:"+methodTags.Name()] {
 					usesR = true
 				}
+				if callsTagFn(in) {
+					usesR = true
+				}
 			})
 		}
 		r.Check(usesW && usesR, "C04-R4", "registration and lookup translate methods through the same table", "-", "both read the method tag table", "method tags are not derived from one shared table on both sides")
+	}
+
+	// ---- R6: a rejected registration leaves the tree unchanged
+	{
+		var mutates func(fn *ssa.Function, depth int) bool
+		mutates = func(fn *ssa.Function, depth int) bool {
+			if fn == nil || fn.Blocks == nil || depth > 3 {
+				return false
+			}
+			hit := false
+			sx.Instrs(fn, func(in ssa.Instruction) {
+				switch x := in.(type) {
+				case *ssa.MapUpdate:
+					hit = true
+				case *ssa.Store:
+					if fa, ok := x.Addr.(*ssa.FieldAddr); ok && node != nil && types.Identical(ptrTo(fa.X.Type()), node) {
+						hit = true
+					}
+				case *ssa.Call:
+					if c := sx.StaticCallee(x); c != nil && p.InModule(c) && mutates(c, depth+1) {
+						hit = true
+					}
+				}
+			})
+			return hit
+		}
+		var muts []ssa.Instruction
+		sx.Instrs(parse, func(in ssa.Instruction) {
+			switch x := in.(type) {
+			case *ssa.MapUpdate:
+				muts = append(muts, in)
+			case *ssa.Store:
+				if fa, ok := x.Addr.(*ssa.FieldAddr); ok && node != nil && types.Identical(ptrTo(fa.X.Type()), node) {
+					muts = append(muts, in)
+				}
+			case *ssa.Call:
+				if c := sx.StaticCallee(x); c != nil && p.InModule(c) && mutates(c, 0) {
+					muts = append(muts, in)
+				}
+			}
+		})
+		errIdx := -1
+		res := parse.Signature.Results()
+		for i := 0; i < res.Len(); i++ {
+			if res.At(i).Type().String() == "error" {
+				errIdx = i
+			}
+		}
+		nErr := 0
+		if errIdx >= 0 && len(muts) > 0 {
+			for _, b := range parse.Blocks {
+				ret, ok := b.Instrs[len(b.Instrs)-1].(*ssa.Return)
+				if !ok {
+					continue
+				}
+				for _, rc := range retCases(ret, errIdx) {
+					if c, isC := rc.Val.(*ssa.Const); isC && c.IsNil() {
+						continue
+					}
+					nErr++
+					var bad ssa.Instruction
+					for _, m := range muts {
+						if m == rc.At || sx.ReachInstr(parse, m, rc.At, sx.Cut{}) {
+							bad = m
+							break
+						}
+					}
+					pos := p.Pos(rc.At.Pos())
+					if bad == nil {
+						r.OK("C04-R6", fmt.Sprintf("error return #%d of %s", nErr, fnName(parse)), pos, "no change of the tree precedes it on any path")
+					} else {
+						r.Fail("C04-R6", fmt.Sprintf("error return #%d of %s", nErr, fnName(parse)), pos, "the tree is changed at "+p.Pos(bad.Pos())+" on a path that then rejects the route: the nodes created for the rejected pattern stay behind, and a left-over literal child shadows a :param / * sibling for later requests (the walk does not backtrack)")
+					}
+				}
+			}
+		}
+		if nErr == 0 {
+			r.Fail("C04-R6", "error returns of the registration", p.FuncPos(parse), "the registration function has no error return or changes nothing: the rule has nothing to check")
+		}
 	}
 
 	// ---- R5
 	{
 		// registration: per block, transitions through a parameter key == appends to the name list
 		okW, nW := true, 0
+		rkeys, keyList := regKeys(p, parse)
 		for _, b := range parse.Blocks {
 			tr, ap := 0, 0
 			for _, in := range b.Instrs {
@@ -754,14 +1006,13 @@ func runC04(p *core.Prog, r *core.Report) {
 				if !ok {
 					continue
 				}
-				if callee := sx.StaticCallee(c); callee != nil && p.InModule(callee) && callee.Signature.Recv() != nil {
-					for _, a := range c.Call.Args {
-						if s, isC := sx.ConstString(a); isC && strings.HasPrefix(s, "/:") {
-							tr++
-						}
+				for _, k := range rkeys {
+					if k.At == in && strings.HasPrefix(k.Key, "/:") {
+						tr++
 					}
 				}
-				if isBuiltin(c, "append") && c.Type().String() == "[]string" {
+				// appends to the parameter-name list (the list of child names, when there is one, is not it)
+				if isBuiltin(c, "append") && c.Type().String() == "[]string" && !keyList[c] {
 					ap++
 				}
 			}
